@@ -20,6 +20,13 @@ def full_ring():
             "0 cycle", "0 cycle", "0 root z 7a 3 0 1", "0 drop z", "0 cycle", "0 stats"]
 
 
+def parked_backlog():
+    # more than two queue lengths of finish signals on one thread with no collector cycle in between: the queue is
+    # full, the overflow list grows, every call still returns at once
+    return ["0 spawn", "0 setReporter 1", "0 touch", "0 root r 72 1 0 1", "0 child1 c 63 r", "0 drop c", "0 spam 20700", "0 root q 71 2 0 1", "0 cancel q", "0 drop q",
+            "0 cancel r", "0 drop r", "0 cycle", "0 cycle", "0 cycle", "0 root z 7a 3 0 1", "0 drop z", "0 cycle", "0 stats"]
+
+
 def tls_probe():
     return ["0 spawn", "1 spawn", "2 spawn", "0 setReporter 0", "1 root r 72 1 0 1", "1 child1 c 63 r", "1 scope r", "1 localEnter 6c", "1 tlsProbe c", "1 exit",
             "2 tlsProbe nosuch", "2 exit", "0 drop r", "0 cycle", "0 cycle"]
@@ -29,13 +36,14 @@ def extra(r):
     out = [("focus/deep-nesting-4100", deep_nesting(4100), ["no_panic"]),
            ("focus/queue-overflow-10245", queue_overflow(10245), ["no_panic"]),
            ("focus/full-ring", full_ring(), ["no_panic"]),
+           ("focus/parked-backlog-20700", parked_backlog(), ["no_panic"]),
            ("nomodel/tls-teardown", tls_probe(), ["no_panic"])]
     return out
 
 
 def knobs(r, i):
     # half of the programs run their collector cycles step by step, with operations of every thread in between
-    return {"stepped": i % 2 == 0, "unwinds": i % 3 == 0, "open_at_close": i % 5 == 0}
+    return {"stepped": i % 2 == 0, "stepped_flush": i % 4 == 0, "unwinds": i % 3 == 0, "open_at_close": i % 5 == 0}
 
 
 def run(v, tier, seed, replay):
